@@ -371,21 +371,37 @@ Definition sim_ready (c : sim_cfg) : bool := negb (sim_circ c =? 0)%nat.
 Definition sn_eqb (a b : state * nat) : bool := state_eqb (fst a) (fst b) && (snd a =? snd b)%nat.
 Definition sim_init : sim_cfg := {| sim_circ := 0; sim_heralds := 0; sim_mask := false |}.
 
-(* the engine-side mask a Simulator leaves behind, and Simulator.probs(BasicState), which evolves the input
-   with whatever mask the engine still carries: (heralds id, n) of the last use_mask, None = no mask *)
-Inductive simm_op := SmHeralds (h : nat) | SmProbsSvd (n : nat) (pnr : bool) | SmProbs.
-Definition simm_state := (nat * option (nat * nat))%type.       (* heralds id, engine mask *)
-(* [fixed] = Simulator._evolve_cache clears a leftover engine mask first (/repo commit bc7ab4f9, the code as it is
-   now); false = the code before it *)
-Definition simm_step (fixed : bool) (s : simm_state) (o : simm_op) : simm_state * option (option (nat * nat)) :=
+(* the engine-side mask a Simulator leaves behind.  probs_svd / evolve_svd decide (init_use_mask) whether the heralds
+   mask is usable and set or clear the engine mask accordingly.  The three UNCONDITIONED queries - probs(BasicState),
+   probability, prob_amplitude - ignore heralds: they must run without a mask; evolve(state) re-decides the mask from
+   the current heralds, the flag and its own photon number (use_mask).
+   engine mask: (heralds id, n) of the last set_mask, None = no mask.
+   [fp] = probs clears a leftover mask (/repo bc7ab4f9), [fa] = probability / prob_amplitude do (/repo 7e0f70ac);
+   (true, true) is the code as it is now *)
+Inductive simq := SqProbs | SqProbability | SqProbAmplitude | SqEvolve (n : nat).
+Inductive simm_op := SmHeralds (h : nat) | SmProbsSvd (n : nat) (pnr : bool) | SmQuery (q : simq).
+Record simm_state := { sm_heralds : nat; sm_flag : bool (* _can_use_mask *); sm_engine : option (nat * nat) }.
+Definition simm_step (fp fa : bool) (s : simm_state) (o : simm_op) : simm_state * option (option (nat * nat)) :=
   match o with
-  | SmHeralds h => ((h, snd s), None)
-  | SmProbsSvd n pnr => ((fst s, if negb (fst s =? 0)%nat && pnr then Some (fst s, n) else None), None)
-  | SmProbs => if fixed then ((fst s, None), Some None)
-               else (s, Some (snd s))                  (* the mask the evolution is computed under *)
+  | SmHeralds h => ({| sm_heralds := h; sm_flag := sm_flag s; sm_engine := sm_engine s |}, None)
+  | SmProbsSvd n pnr =>
+    let f := negb (sm_heralds s =? 0)%nat && pnr in
+    ({| sm_heralds := sm_heralds s; sm_flag := f; sm_engine := if f then Some (sm_heralds s, n) else None |}, None)
+  | SmQuery q =>
+    let clear := match q with SqProbs => fp | SqProbability | SqProbAmplitude => fa | SqEvolve _ => false end in
+    let e := match q with
+             | SqEvolve n => if sm_flag s then Some (sm_heralds s, n) else None      (* use_mask(n) *)
+             | _ => if clear then None else sm_engine s
+             end in
+    ({| sm_heralds := sm_heralds s; sm_flag := sm_flag s; sm_engine := e |}, Some e)   (* the mask it is computed under *)
   end.
-Definition simm_run (fixed : bool) (h : list simm_op) : simm_state :=
-  fold_left (fun s o => fst (simm_step fixed s o)) h (0%nat, None).
+Definition simm_init : simm_state := {| sm_heralds := 0; sm_flag := false; sm_engine := None |}.
+Definition simm_run (fp fa : bool) (h : list simm_op) : simm_state :=
+  fold_left (fun s o => fst (simm_step fp fa s o)) h simm_init.
+(* the mask the query's own configuration determines: none for the unconditioned queries; for evolve the one use_mask
+   derives from the current heralds, the mask-usability flag (set by the last probs_svd / evolve_svd) and n *)
+Definition simm_fresh (s : simm_state) (q : simq) : option (nat * nat) :=
+  match q with SqEvolve n => if sm_flag s then Some (sm_heralds s, n) else None | _ => None end.
 
 (* ------------------------------------------------------------------------------------------------ *)
 (* Part 3: MPSBackend._cutoff.  _compile: if cutoff is None or < d: cutoff = d; cutoff = min(cutoff, d**(m//2)) *)
